@@ -111,6 +111,7 @@ def gen_case(r, i, mode=None):
     for b in base:
         files[b] = r.choice(["chg", "chg", "chg", "same", "bad", "bad", "nul", "deep", "bin"])
     layout = None
+    link_text = None
     if r.random() < .22:
         files["d"] = "dir"
         layout = {"d": gen_layout(r, base)}
@@ -186,6 +187,28 @@ def gen_case(r, i, mode=None):
         abs_links, layout = [], None
         args = list(files)
         r.shuffle(args)
+    elif r.random() < .07:
+        # dot-dot-shaped: the link text goes through a directory symlink and then "..": the kernel resolves it
+        # component by component (current -> releases/v2, so current/.. is releases), a textual normalisation
+        # ends at a decoy (shared/conf.py)
+        files = {"releases": "dir", "shared": "dir", "current": "dirlink:releases/v2",
+                 "conf.py": "link:releases/shared/conf.py", "f1.py": "chg"}
+        layout = {"releases": [["v2/keep.py", "same"], ["shared/conf.py", r.choice(["chg", "chg", "same", "bad"])]],
+                  "shared": [["conf.py", "chg"]]}
+        link_text = {"conf.py": r.choice(["current/../shared/conf.py", "./current/../shared/conf.py", "current//../shared/conf.py",
+                                          "current/../shared/./conf.py", "current/./../shared//conf.py"])}
+        if r.random() < .5:
+            link_text["current"] = r.choice(["releases/v2/", "./releases//v2", "releases/v2/."])
+        if r.random() < .4:
+            files["l0.py"] = "link:conf.py"
+        abs_links = []
+        args = [r.choice(["conf.py", "l0.py"]) if "l0.py" in files else "conf.py"] + (["f1.py"] if r.random() < .3 else [])
+        pol = r.choice(["follow", "follow", "follow", "replace", "skip", None])
+        act = r.choice([("-r", "OReplace"), ("--actions=REPLACE", "(OActions [Replace])")])
+        argv, terms = [act[0]], [act[1]]
+        if pol:
+            argv.append("--symlinks=" + pol)
+            terms.append("(OSymlinks SV%s)" % pol.capitalize())
     elif r.random() < .14:
         # directory-shaped: a directory argument holding symlinked *.py entries, under an explicit or the default
         # policy, with REPLACE reachable
@@ -208,7 +231,7 @@ def gen_case(r, i, mode=None):
     if tty:
         answers = [a.replace("\t", " ") for a in answers]     # a tab on a terminal is the completion key
     return {"kind": "tool", "i": i, "tool": tool, "argv": argv, "terms": terms, "files": files, "args": args,
-            "answers": answers, "mode": m, "tty": tty, "abs_links": abs_links, "layout": layout}
+            "answers": answers, "mode": m, "tty": tty, "abs_links": abs_links, "layout": layout, "link_text": link_text}
 
 
 def gen_many(r, i, nfail):
@@ -343,7 +366,9 @@ def build_tree(c, root):
         p = os.path.join(root, name)
         if is_link_kind(kind):
             t = os.path.join(root, link_target(fm, name))
-            if name in c.get("abs_links", []) or kind == "dangling":
+            if name in (c.get("link_text") or {}):
+                os.symlink(c["link_text"][name], p)          # literal text: .., ., //, a trailing / ...
+            elif name in c.get("abs_links", []) or kind == "dangling":
                 os.symlink(t, p)
             else:
                 os.symlink(os.path.relpath(t, os.path.dirname(p)), p)
@@ -362,8 +387,10 @@ def snap_tree(watched, root):
             continue
         if S.S_ISLNK(st.st_mode):
             raw = os.readlink(p)
-            t = raw if os.path.isabs(raw) else os.path.join(os.path.dirname(p), raw)
-            out[name] = {"link": os.path.relpath(os.path.normpath(t), root), "raw": raw.replace(root + "/", "ROOT/"),
+            t = (raw if os.path.isabs(raw) else os.path.join(os.path.dirname(p), raw)).rstrip("/")
+            hop = os.path.join(os.path.realpath(os.path.dirname(t)), os.path.basename(t))
+            out[name] = {"link": os.path.relpath(hop, os.path.realpath(root)), "raw": raw.replace(root + "/", "ROOT/"),
+                         "real": os.path.relpath(os.path.realpath(p), os.path.realpath(root)),
                          "id": [st.st_ino, st.st_ctime_ns]}
         elif S.S_ISREG(st.st_mode):
             with open(p, "rb") as f:
@@ -650,6 +677,12 @@ def compare(ctx, c, im, mv):
             got_fs[name] = {"bin": True, "new_inode": a["id"] != (b or {}).get("id")}
         else:
             got_fs[name] = "dir"
+    fm = flat(c)
+    for name, b in im["before"].items():
+        if b and "real" in b:
+            f = final_of(fm, name)
+            if f is not None and b["real"] != f:
+                ctx.disagreement("kernel resolution of a symlink vs the tree the model is given", c, {name: b["real"]}, {name: f})
     if got_fs != want_fs:
         ctx.disagreement("files after the run", c, {k: v for k, v in got_fs.items() if want_fs.get(k) != v},
                          {k: v for k, v in want_fs.items() if got_fs.get(k) != v})
@@ -924,7 +957,7 @@ def run(ctx):
         "replace|bogus, -r/-p/-d/-R/-i, --quiet/--uniform, --actions=<1-4 words incl. lower case, QUERY:prompt, EXECUTE:true, an unknown word>; "
         "1-6 arguments among changed / already-tidy regular files, files failing with different exception classes (SyntaxError, null byte, "
         "RecursionError, invalid UTF-8 = UnicodeDecodeError in the reader), symlinks (1-3 hops, relative and absolute text, into a directory, "
-        "ending nowhere, a loop), a missing name, a directory tree (hidden, non-py, __pycache__, nested entries, symlinked *.py entries to targets inside / outside the directory, chained, dangling, a symlinked sub-directory), the same file twice, 20-60 files in one invocation, and per run two invocations with 255/256/257/512 failing arguments (the 8-bit exit status boundary); 0-6 scripted "
+        "ending nowhere, a loop), a missing name, a directory tree (hidden, non-py, __pycache__, nested entries, symlinked *.py entries to targets inside / outside the directory, chained, dangling, a symlinked sub-directory), link texts that pass through a directory symlink and then '..' (with a decoy at the textually normalised path), '.', '//', a trailing '/', the same file twice, 20-60 files in one invocation, and per run two invocations with 255/256/257/512 failing arguments (the 8-bit exit status boundary); 0-6 scripted "
         "answers among y/Yes/n/no/empty/blank/tab/'yes please'/q/... and EOF; 15% QUERY-shaped cases judged answer by answer; ~12% as "
         "unpatched subprocesses (a quarter of "
         "those under a pty = default interactive tuple), the rest in-process through runpy; thorough adds every action tuple of length <= 3 "
